@@ -180,6 +180,25 @@ def opModule (io : Crop.KIO) (cfg : Crop.KKey) (f : R → R) (tk tm : Tensor Int
 def keyOfCode (c : Int) : Crop.KKey := if c = 1 then .masked else .kspace
 def formOfCode (c : Int) : Crop.CropForm := if c = 0 then .intString else if c = 1 then .key else .seq
 
+/-- `PadCoilDimensionModule(pad_coils=num, coil_dim)` on the tensor under its key: every fibre along the coil axis goes
+through `Crop.padCoils1` (all fibres have the same length, hence take the same branch); `none` = `ValueError` -/
+def padCoilT (num : Int) (coilDim : Nat) (x : R) : Option R :=
+  match x with
+  | .error e => some (.error e)
+  | .ok t =>
+    if (Crop.padCoilDecision num (t.shape.getD coilDim 0 : Nat) true).1 = 1 then none else
+    some (.ok (t.alongAxis coilDim fun xs => (Crop.padCoils1 0 num xs).getD xs))
+
+def fmtOpt : Option R → List (List Int)
+  | some (.ok a) => [a.shape.map Int.ofNat, a.data]
+  | _ => [[-1], [-1]]
+
+/-- `padcoil`: the sample holds the k-space keys flagged present; answer = both entries afterwards (`-1 | -1` = absent) -/
+def opPadCoil (num : Int) (key : Crop.KKey) (coilDim : Nat) (tk tm : Option (Tensor Int)) : String :=
+  match Crop.padCoilCall key (padCoilT num coilDim) ⟨tk.map .ok, tm.map .ok⟩ with
+  | some s => "ok " ++ fmtGroups (fmtOpt s.kspace ++ fmtOpt s.masked)
+  | none => "err ValueError"
+
 def step (op : String) (gs : List (List Int)) : String :=
   match op, gs with
   | "center_crop", [shape, data, s] =>
@@ -216,6 +235,12 @@ def step (op : String) (gs : List (List Int)) : String :=
   | "cropk", [[form], shapeK, dataK, shapeM, dataM, crop, keyVal] =>
     match mkT shapeK dataK, mkT shapeM dataM with
     | some tk, some tm => opModule Crop.cropKspaceIO .kspace (cropKspaceRun (formOfCode form) crop keyVal) tk tm
+    | _, _ => "err BadOp"
+  | "padcoil", [[num, key, coilDim, hasK, hasM], shapeK, dataK, shapeM, dataM] =>
+    match mkT shapeK dataK, mkT shapeM dataM with
+    | some tk, some tm =>
+      if coilDim < 0 ∨ coilDim.toNat ≥ tk.shape.length ∨ coilDim.toNat ≥ tm.shape.length then "err BadOp" else
+      opPadCoil num (keyOfCode key) coilDim.toNat (if hasK = 1 then some tk else none) (if hasM = 1 then some tm else none)
     | _, _ => "err BadOp"
   | _, _ => "err BadOp"
 
